@@ -64,6 +64,11 @@ class Prop(PropBase):
                 head, _, rest = line.partition(" ; ")
                 line = "%s ; sz %d %d ; %s" % (head, rng.choice([0, 0, -1, -7, 5]), rng.choice([0, -1, 3, 0]), rest)
             cs.append(Case(line, tag="history-undeclared-or-degenerate-size", oracle=False))
+        # correspondence only: moves to positions OUTSIDE the declared size (also repeated), where the oracle stops judging
+        for i in range(500 if tier == "quick" else 6000):
+            cs.append(Case(tg.history(rng, rng.choice([2, 4, 8, 20]), sized=True, wild=True,
+                                      ops_weights={"mv": 45, "we": 15, "ws": 5, "sv": 8, "rs": 8, "sz": 6, "er": 3, "dup": 10}),
+                           tag="history-out-of-range-moves", oracle=False))
         shc = ["%d %d %d %d 7 4" % (wv, e, r, z) for wv in range(3) for e in range(3) for r in range(6) for z in range(4)]
         for line, cf in tg.short_histories(3 if tier == "quick" else 4, shc):
             cs.append(Case(line, sweep="short-histories", cfgs=cf))
